@@ -255,7 +255,7 @@ class TwelveBitAvrRelocation(Relocation):
         assert sym_value % 2 == 0
         assert reloc_value % 2 == 0
         offset = (sym_value - reloc_value - 2) // 2
-        assert offset in range(-2047, 2048), str(offset)
+        assert offset in range(-2048, 2048), str(offset)
         return wrap_negative(offset, 12)
 
 
@@ -300,7 +300,7 @@ class SevenBitAvrRelocation(Relocation):
         assert sym_value % 2 == 0
         assert reloc_value % 2 == 0
         offset = (sym_value - reloc_value - 2) // 2
-        assert offset in range(-63, 64), str(offset)
+        assert offset in range(-64, 64), str(offset)
         return wrap_negative(offset, 7)
 
 
